@@ -146,6 +146,32 @@ Theorem C04_views_ordered_perm : forall dcf rackf (g : ring N) pre t,
               (rs_iter dcf rackf g pre t (replicas_for dcf rackf g pre t s dc)).
 Proof. exact ordered_perm. Qed.
 
+(* next() and nth(n) interleaved in any way on one iterator (the stateful ChainedNTS loop
+   included) yield what the same operations mean on the iterated sequence — no hypothesis *)
+Theorem C04_views_ops : forall dcf rackf (g : ring N) pre t s ops,
+  rs_run dcf rackf g pre t s ops = list_run ops (rs_iter dcf rackf g pre t s).
+Proof. exact iter_ops_view. Qed.
+
+(* the two predicates the correspondence check evaluates on the implementation's own output
+   when it disagrees with the model: what they mean, and that the model satisfies them *)
+Theorem C04_placement_sound : forall spec observed,
+  placement_ok spec observed = true ->
+  NoDup observed /\ NoDup spec /\ (forall x, In x observed <-> In x spec).
+Proof. exact (fun spec observed => proj1 (same_set_spec observed spec)). Qed.
+
+Theorem C04_placement_model : forall dcf rackf (g : ring N) pre t s dc,
+  sorted_weak g ->
+  placement_ok (spec_replicas dcf rackf g t s dc)
+               (rs_iter dcf rackf g pre t (replicas_for dcf rackf g pre t s dc)) = true.
+Proof. exact placement_model. Qed.
+
+Theorem C04_ordered_model : forall dcf rackf (g : ring N) pre t s dc,
+  sorted_weak g -> nts_keys_ok s ->
+  let r := replicas_for dcf rackf g pre t s dc in
+  snd (rs_ordered dcf rackf g pre t r) = [] /\
+  ordered_ok g t (rs_iter dcf rackf g pre t r) (fst (rs_ordered dcf rackf g pre t r)) = true.
+Proof. exact ordered_model. Qed.
+
 (* ---- non-vacuity: the 7-node, 2-datacenter ring of the repository's own tests -----------
    nodes A..G = 1..7; eu = 1, us = 2; racks r1 = 1, r2 = 2 *)
 Definition ex_dcf (n : N) : option N :=
@@ -185,6 +211,36 @@ Example C04_ex_views :
   rs_iter ex_dcf ex_rackf ex_g pre 160 (replicas_for ex_dcf ex_rackf ex_g pre 160 (NTS [(1%N, 2%nat); (2%N, 2%nat)]) (Some 2%N)) = [6; 4]%N.
 Proof. repeat split; vm_compute; reflexivity. Qed.
 
+(* the specification itself and the driver's predicates, on concrete inputs (accepting and
+   rejecting): these anchor the definitions *)
+Example C04_ex_spec :
+  spec_replicas ex_dcf ex_rackf ex_g 160 (Simple 3) None = [6; 1; 3]%N /\
+  spec_replicas ex_dcf ex_rackf ex_g 160 (Simple 3) (Some 1%N) = [1; 3]%N /\
+  spec_replicas ex_dcf ex_rackf ex_g 160 (NTS [(1%N, 2%nat); (2%N, 1%nat)]) None = [1; 7; 6]%N /\
+  spec_replicas ex_dcf ex_rackf ex_g 160 (NTS [(2%N, 0%nat); (1%N, 2%nat)]) None = [1; 7]%N /\
+  spec_replicas ex_dcf ex_rackf ex_g 901 LocalS None = [1%N] /\
+  spec_nts_dc ex_dcf ex_rackf ex_g 160 1 4 = [1; 3; 7; 2]%N.
+Proof. repeat split; vm_compute; reflexivity. Qed.
+
+Example C04_ex_predicates :
+  placement_ok [6; 1; 3]%N [3; 6; 1]%N = true /\          (* same nodes in another order *)
+  placement_ok [6; 1; 3]%N [6; 1]%N = false /\            (* a replica missing *)
+  placement_ok [6; 1; 3]%N [6; 1; 4]%N = false /\         (* a non-replica *)
+  placement_ok [6; 1; 3]%N [6; 1; 3; 6]%N = false /\      (* a node twice *)
+  ordered_ok ex_g 160 [1; 3; 7; 6; 4; 5]%N [6; 1; 3; 4; 7; 5]%N = true /\
+  ordered_ok ex_g 160 [1; 3; 7; 6; 4; 5]%N [1; 3; 7; 6; 4; 5]%N = false /\   (* not ring order *)
+  ordered_ok ex_g 160 [1; 7]%N [6; 1; 7]%N = false /\                       (* F5: a non-replica first *)
+  ordered_ok dup_ring 10 [1%N] [3; 1]%N = false.                            (* F18 *)
+Proof. repeat split; vm_compute; reflexivity. Qed.
+
+Example C04_ex_ops :
+  let pre := [Simple 2] in
+  let s := replicas_for ex_dcf ex_rackf ex_g pre 160 (NTS [(1%N, 3%nat); (2%N, 3%nat)]) None in
+  rs_run ex_dcf ex_rackf ex_g pre 160 s [INext; INth 1; INext; INth 0; INth 2; INext] =
+    [Some 1; Some 7; Some 6; Some 4; None; None]%N /\
+  list_run [INth 0; INth 0; INext; INth 3; INext] [1; 3; 7; 6; 4; 5]%N = [Some 1; Some 3; Some 7; None; None]%N.
+Proof. split; vm_compute; reflexivity. Qed.
+
 (* the witness of the repaired finding F18: a token owned by nodes of two datacenters *)
 Example C04_ex_dup :
   rs_iter dup_dcf (fun _ => None) dup_ring [] 10 (RChained [(1%N, 1%nat)]) = [1%N] /\
@@ -213,3 +269,7 @@ Print Assumptions C04_views_choose.
 Print Assumptions C04_views_nodup.
 Print Assumptions C04_views_ordered.
 Print Assumptions C04_views_ordered_perm.
+Print Assumptions C04_views_ops.
+Print Assumptions C04_placement_sound.
+Print Assumptions C04_placement_model.
+Print Assumptions C04_ordered_model.
